@@ -360,3 +360,35 @@ Definition run_case (c : nat * list nat * list batch) : list res * option (list 
         end).
 Definition case_eqb (a b : list res * option (list orow)) : bool :=
   list_eqb res_eqb (fst a) (fst b) && obs_eqb (snd a) (snd b).
+
+(* ------------------------------------------------------------------ header count (DCD)
+   A DCD file carries its number of frames in the header.  [hevery] = the writer rewrites that count after every
+   [hevery]-th frame (dcdplugin.c:write_dcdstep: 1, i.e. after every frame) and when the file is closed;
+   [trust] = the reader believes a non-zero header count even when the file is longer (open_dcd_read as found:
+   false, the count is always recomputed from the file size).  The frames themselves are written through.
+   [hload] is what a reader sees at any moment, in particular after the writer was killed. *)
+Record hstate := { hd_frames : list nat; hd_header : nat }.
+Definition hinit : hstate := {| hd_frames := []; hd_header := 0 |}.
+
+Fixpoint hwrite (hevery : nat) (ids : list nat) (s : hstate) : hstate :=
+  match ids with
+  | [] => s
+  | i :: ids' =>
+      let d := hd_frames s ++ [i] in
+      hwrite hevery ids' {| hd_frames := d;
+                            hd_header := if Nat.eqb (Nat.modulo (length d) hevery) 0 then length d else hd_header s |}
+  end.
+
+Definition hstep (hevery : nat) (o : dop) (s : hstate) : hstate :=
+  match o with
+  | DWrite ids => hwrite hevery ids s
+  | DFlush => s
+  | DClose => {| hd_frames := hd_frames s; hd_header := length (hd_frames s) |}
+  end.
+Definition hrun (hevery : nat) (ops : list dop) : hstate := fold_left (fun s o => hstep hevery o s) ops hinit.
+
+Definition hload (trust : bool) (s : hstate) : list nat :=
+  if trust && negb (Nat.eqb (hd_header s) 0) then firstn (hd_header s) (hd_frames s) else hd_frames s.
+
+Definition header_crash_ok (c : nat * bool * list dop * list nat) : bool :=
+  let '(hevery, trust, ops, got) := c in list_eqb Nat.eqb got (hload trust (hrun hevery ops)).
